@@ -121,15 +121,6 @@ theorem bound_ok_some {α : Type} {conv : Bytes → Option α} {pm : Meta.Ptr} {
       simp only [Except.ok.injEq, Option.some.injEq] at h
       rw [hv, h]
 
-theorem intBound_inRange {ty : IntTy} {pm : Meta.Ptr} {key : Bytes} {b : Int}
-    (h : bound (fun s => (atoi s).map ty.wrap) pm key = .ok (some b)) : ty.InRange b := by
-  obtain ⟨s, _, hc⟩ := bound_ok_some h
-  cases ha : atoi s with
-  | none => simp [ha] at hc
-  | some m =>
-    simp only [ha, Option.map_some, Option.some.injEq] at hc
-    rw [← hc]; exact IntTy.wrap_inRange ty m
-
 theorem atoiBody_i32 {neg : Bool} {s : Bytes} {v : Int} (h : atoiBody neg s = some v) : IntTy.i32.InRange v := by
   unfold atoiBody at h
   by_cases hr : IntTy.i32.min ≤ (if neg = true then -(((takeDigits s 0).1 : Nat) : Int) else (((takeDigits s 0).1 : Nat) : Int)) ∧
@@ -177,25 +168,73 @@ theorem undoEvents_set {α : Type} (N : NumOps α) (old new : α) (loc : Bytes) 
       · exact absurd (h.mp hn) hp
     simp [undoEvents, undoEvent, this, hp, broadcast, hb]
 
+/-- what the repaired `rLIMIT` leaves in a variable of type `ty` is a value of `ty` -/
+theorem limitInt_inRange (ty : IntTy) (lo hi : Option Int) (v : Int) (hv : ty.InRange v) :
+    ty.InRange (limitInt ty lo hi v) := by
+  have hw := IntTy.wrap_inRange ty
+  cases lo <;> cases hi <;> simp only [limitInt] <;> (repeat' split) <;> first | exact hv | exact hw _
+
+/-- When the declared range meets the variable's type (minimum not above the type's
+    largest value, maximum not below its smallest, minimum ≤ maximum), the repaired
+    `rLIMIT` is the mathematical clamp; no bound is narrowed. -/
+theorem limitInt_eq_limit (ty : IntTy) (lo hi : Option Int) (v : Int) (hv : ty.InRange v)
+    (hlo : ∀ l, lo = some l → l ≤ ty.max) (hhi : ∀ h, hi = some h → ty.min ≤ h)
+    (hord : ∀ l h, lo = some l → hi = some h → l ≤ h) :
+    limitInt ty lo hi v = limit intOps lo hi v := by
+  unfold IntTy.InRange at hv
+  cases lo with
+  | none =>
+    cases hi with
+    | none => simp [limitInt, limit]
+    | some h =>
+      have h2 := hhi h rfl
+      simp only [limitInt, limit, intOps, decide_eq_true_eq]
+      split
+      · exact IntTy.wrap_of_inRange _ _ ⟨h2, by omega⟩
+      · rfl
+  | some l =>
+    have h1 := hlo l rfl
+    cases hi with
+    | none =>
+      simp only [limitInt, limit, intOps, decide_eq_true_eq]
+      split
+      · exact IntTy.wrap_of_inRange _ _ ⟨by omega, h1⟩
+      · rfl
+    | some h =>
+      have h2 := hhi h rfl
+      have h3 := hord l h rfl rfl
+      simp only [limitInt, limit, intOps, decide_eq_true_eq]
+      by_cases hvl : v < l
+      · have hwl : ty.wrap l = l := IntTy.wrap_of_inRange _ _ ⟨by omega, h1⟩
+        simp only [hvl, ↓reduceIte, hwl]
+        have : ¬ h < l := by omega
+        simp [this]
+      · simp only [hvl, ↓reduceIte]
+        split
+        · exact IntTy.wrap_of_inRange _ _ ⟨h2, by omega⟩
+        · rfl
+
 theorem intCb_set_result (varTy storeTy : IntTy) (tag : Int → Arg) (pm : Meta.Ptr) (loc : Bytes)
     (old raw new : Int) (a : Arg) (args : List Arg) (lo hi : Option Int) (ev : List Event)
-    (harg : argI a = .ok raw) (hraw : varTy.InRange raw) (hsub : varTy.Sub storeTy)
-    (hmn : bound (fun s => (atoi s).map varTy.wrap) pm kMin = .ok lo)
-    (hmx : bound (fun s => (atoi s).map varTy.wrap) pm kMax = .ok hi)
+    (harg : argI a = .ok raw) (hsub : varTy.Sub storeTy)
+    (hmn : bound atoi pm kMin = .ok lo) (hmx : bound atoi pm kMax = .ok hi)
     (hres : intCb varTy storeTy tag pm loc old (a :: args) = .ok (new, ev)) :
-    new = limit intOps lo hi raw ∧
-    ev = undoEvent intOps (varTy.wrap old) new loc (tag (IntTy.i32.wrap old)) (tag new)
+    new = limitInt varTy lo hi (varTy.wrap raw) ∧
+    ev = undoEvent intOps (varTy.wrap old) new loc (tag (varTy.wrap old)) (tag new)
           ++ [broadcast loc [tag new]] := by
-  have hvr : varTy.InRange (limit intOps lo hi raw) :=
-    limit_inRange varTy lo hi raw hraw (fun l hl => intBound_inRange (hl ▸ hmn))
-      (fun h hh => intBound_inRange (hh ▸ hmx))
+  have hvr : varTy.InRange (limitInt varTy lo hi (varTy.wrap raw)) :=
+    limitInt_inRange varTy lo hi _ (IntTy.wrap_inRange varTy raw)
   have hs := IntTy.wrap_of_inRange _ _ (hsub.inRange hvr)
   have h32 := IntTy.wrap_of_inRange _ _ ((IntTy.sub_i32 varTy).inRange hvr)
   simp only [intCb, harg, hmn, hmx, bind, Except.bind, pure, Except.pure,
-    IntTy.wrap_of_inRange _ _ hraw, hs, h32, Except.ok.injEq, Prod.mk.injEq] at hres
+    hs, h32, Except.ok.injEq, Prod.mk.injEq] at hres
   obtain ⟨h1, h2⟩ := hres
   subst h1
   exact ⟨rfl, h2.symm⟩
+
+/-- a non-NaN float travels through the variadic call unchanged -/
+theorem fArg_of_not_nan (b : UInt32) (h : isNaN b = false) : fArg b = .f b := by
+  simp [fArg, viaDouble, h]
 
 theorem fltCb_set_result (pm : Meta.Ptr) (loc : Bytes) (old raw new : UInt32) (a : Arg)
     (args : List Arg) (lo hi : Option UInt32) (ev : List Event)
@@ -203,7 +242,7 @@ theorem fltCb_set_result (pm : Meta.Ptr) (loc : Bytes) (old raw new : UInt32) (a
     (hmn : bound atofF32 pm kMin = .ok lo) (hmx : bound atofF32 pm kMax = .ok hi)
     (hres : fltCb pm loc old (a :: args) = .ok (new, ev)) :
     new = limit fltOps lo hi raw ∧
-    ev = undoEvent fltOps old new loc (.f old) (.f new) ++ [broadcast loc [.f new]] := by
+    ev = undoEvent fltOps old new loc (fArg old) (fArg new) ++ [broadcast loc [fArg new]] := by
   simp only [fltCb, harg, hmn, hmx, bind, Except.bind, pure, Except.pure, Except.ok.injEq,
     Prod.mk.injEq] at hres
   obtain ⟨h1, h2⟩ := hres
@@ -216,11 +255,11 @@ theorem atoiBound_i32 {pm : Meta.Ptr} {key : Bytes} {b : Int}
   exact atoi_i32 hc
 
 theorem optCb_int_result (storeTy : IntTy) (pm : Meta.Ptr) (loc : Bytes)
-    (old raw new : Int) (a : Arg) (lo hi : Option Int) (ev : List Event)
+    (old raw new : Int) (a : Arg) (rest : List Arg) (lo hi : Option Int) (ev : List Event)
     (harg : a = .i raw ∨ a = .c raw) (hraw : storeTy.InRange raw)
     (hmn : bound atoi pm kMin = .ok lo) (hmx : bound atoi pm kMax = .ok hi)
     (hlo : ∀ l, lo = some l → storeTy.InRange l) (hhi : ∀ h, hi = some h → storeTy.InRange h)
-    (hres : optCb storeTy pm loc old [a] = .ok (new, ev)) :
+    (hres : optCb storeTy pm loc old (a :: rest) = .ok (new, ev)) :
     new = limit intOps lo hi raw ∧
     ev = undoEvent intOps (IntTy.i32.wrap old) new loc (.i (IntTy.i32.wrap old)) (.i new)
           ++ [broadcast loc [if a = .c raw then .c new else .i new]] := by
